@@ -278,5 +278,14 @@ def hard_failures(out):
         res.append(("race", out[i:i + 3000]))
     m = re.search(r"^(panic:|fatal error:).*", out, re.M)
     if m:
-        res.append(("panic", out[m.start():m.start() + 3000]))
+        text = out[m.start():m.start() + 3000]
+        # a panic raised by the harness itself (first non-runtime frame in harness code, or a pure helper
+        # of the repository called directly by the harness) is a machinery failure, not a verdict
+        frames = [ln.strip() for ln in text.splitlines() if re.match(r"^[\w./*()\[\]{}-]+\(.*\)$", ln.strip())]
+        frames = [f for f in frames if not f.startswith(("runtime.", "panic(", "testing."))]
+        helper = lambda f: "/originium/types." in f or "/originium/utils." in f
+        harness = lambda f: f.startswith("main.") or "verif/harness" in f
+        if frames and (harness(frames[0]) or (helper(frames[0]) and len(frames) > 1 and harness(frames[1]))):
+            raise Machinery("the harness itself panicked:\n" + text[:1500])
+        res.append(("panic", text))
     return res
